@@ -136,7 +136,10 @@ theorem rangeItems_suffix (b : Int) (more : List Str) (lastEnd : Int) (acc : Lis
       simpa [intText] using this
     rw [rangeItems, hitem, strip_tight htight]
     have n2 : ¬ (lastEnd < 0) := by omega
-    simp [hp, Except.map, catching_ok, n2]
+    have n3 : (Int.negSucc n == 0) = false := by
+      have : Int.negSucc n ≠ 0 := by omega
+      simpa using this
+    simp [hp, Except.map, catching_ok, n2, n3]
 
 theorem rangeItems_ok (rs : List (Int × Option Int)) (lastEnd : Int) (acc : List (Int × Option Int))
     (h : rangesOk lastEnd rs = true) :
